@@ -303,7 +303,7 @@ def extract(units, root="/repo", files_re=None, dist=False, ndebug=True,
     return facts
 
 
-def prune_cache(max_bytes=14 << 30):
+def prune_cache(max_bytes=int(os.environ.get("GSA_CACHE_MAX_GB", "32")) << 30):
     """keep the cache bounded: when it exceeds max_bytes drop the least recently used fact files (self-test scratch roots
     leave one copy of every unit per root and mutant) until it is at 3/4 of the limit"""
     try:
